@@ -595,8 +595,16 @@ func (rw *rewriter) postCall(c *astutil.Cursor, n *ast.CallExpr) {
 		c.Replace(rw.call("CondSignal", site, addr(recv, isPtr)))
 	case "Cond.Broadcast":
 		c.Replace(rw.call("CondBroadcast", site, addr(recv, isPtr)))
-	case "Pool.Get", "Pool.Put":
-		// non-blocking
+	case "Pool.Get":
+		// a per-run, deterministic stand-in (last in, first out): nothing pooled in one run is
+		// handed out in the next, and which object a Get receives does not depend on the
+		// real scheduler (pass-through under the race detector, where the pool's own
+		// synchronisation matters)
+		c.Replace(rw.call("PoolGet", addr(recv, isPtr)))
+	case "Pool.Put":
+		if len(n.Args) == 1 {
+			c.Replace(rw.call("PoolPut", addr(recv, isPtr), n.Args[0]))
+		}
 	case "RWMutex.Lock":
 		c.Replace(rw.call("RWLock", site, addr(recv, isPtr)))
 	case "RWMutex.Unlock":
